@@ -111,16 +111,18 @@ theorem prefix_good {len : Nat} {b : Builder} (h : SpansIn len b) (p : Str) {u :
   split
   · rename_i e he
     exact contentErr_inBounds hu he
-  · dsimp only
-    split
-    · trivial
-    · rename_i eb heb
+  · split
+    · exact hsp
+    · dsimp only
       split
-      · exact hsp
-      · refine ⟨h.1, fun eb' he => ?_⟩
-        simp only [Option.some.injEq] at he
-        subst he
-        exact h.2 eb heb
+      · trivial
+      · rename_i eb heb
+        split
+        · exact hsp
+        · refine ⟨h.1, fun eb' he => ?_⟩
+          simp only [Option.some.injEq] at he
+          subst he
+          exact h.2 eb heb
 
 theorem attribute_good {len : Nat} {b : Builder} (h : SpansIn len b) {p l v : StrSpan}
     (hp : p.Inside len) (hl : l.Inside len) (hv : v.Inside len) : StepGood len (b.attribute p l v) := by
@@ -319,6 +321,9 @@ theorem step_good {len : Nat} {b : Builder} (h : SpansIn len b) (t : Token) (ht 
     exact SpanMap.add_allIn h.1 _ (StrSpan.span_inBounds ht.1)
   | pi target content sp =>
     obtain ⟨ht1, ht2, _⟩ := ht
+    simp only [Builder.step]
+    split
+    · exact StrSpan.span_inBounds ht1
     refine ⟨?_, h.2⟩
     simp only [Builder.processingInstruction, Builder.addLeaf]
     have h1 := SpanMap.add_allIn (k := ⟨b.curPath ++ [b.cur.rkids.length], .piTarget⟩) h.1 (StrSpan.span_inBounds ht1)
